@@ -25,6 +25,9 @@ CLAIMED = {
  "C17": dict(technique="byte-lane layout comparison writer/reader, SSA dominance for the size limit and write order, who-may-call/who-may-write for the single writer, panic reachability from the sending side, failure-arm pairing",
              text="Sound static decision of frame layout agreement (type, 32-bit little-endian length, 5-byte prefix, 32-byte topic, payload), the size limit on the wire-sized allocation, the single writer per connection, absence of peer-induced panics on the sending side and connection reset on failed writes. Delivery behaviour and fairness are not decided.",
              design="§4 C17"),
+ "C05": dict(technique="SSA ordering/dominance (wait outcome honoured up to KeyGen, reveal after successful commitment wait), linear normal forms of wait thresholds, same-key comparison provenance, first-value-wins guards, sibling cross-check of BLS and PS",
+             text="Sound static decision of structural necessary conditions of DKG robustness for the built-in BLS and PS backends: expiry reported and honoured, reveal only after all commitments, thresholds n-1/n-1/n, commitment and t-subset cross-checks dominate success, commit/reveal broadcast-class on both sides, first value per peer wins, PS vector lengths validated. Algebraic usability of the shares is not decided.",
+             design="§4 C05"),
 }
 NOT_APPLICABLE = {
  "C08": "completeness of blind/sign/unblind/PoK is an algebraic identity over runtime group elements; no clause is visible in the shape of the code (DESIGN.md §4 C08)",
